@@ -789,29 +789,55 @@ func c08R3(c *Ctx) {
 		}
 		c.analysed(fnName(fn))
 		errP := fn.Params[len(fn.Params)-1]
-		paths, _ := enumPathsAt(fn.Blocks[0], 0, func(i ssa.Instruction) bool { _, ok := errorResponseStatus(i); return ok }, nil, nil, 100)
-		bad := ""
-		for _, pa := range paths {
-			if pa.endWhy != "return" {
-				continue
-			}
-			deadline := anyFact(pa.facts, func(f Fact) bool {
+		fsH := computeFacts(fn)
+		isDeadline := func(facts []Fact, want bool) bool {
+			return anyFact(facts, func(f Fact) bool {
 				cl, ok := f.V.(*ssa.Call)
 				if !ok || commonName(&cl.Call) != "errors.Is" || strip(cl.Call.Args[0]) != ssa.Value(errP) {
 					return false
 				}
-				return strings.Contains(path(cl.Call.Args[1]), "DeadlineExceeded") && f.T
+				return strings.Contains(path(cl.Call.Args[1]), "DeadlineExceeded") && f.T == want
 			})
+		}
+		paths, _ := enumPathsAt(fn.Blocks[0], 0, func(i ssa.Instruction) bool {
+			cl, ok := i.(*ssa.Call)
+			return ok && cl.Call.StaticCallee() != nil && cl.Call.StaticCallee().Name() == "errorResponse" && inModule(cl.Call.StaticCallee())
+		}, nil, nil, 100)
+		bad := ""
+		nAlt := 0
+		for _, pa := range paths {
+			if pa.endWhy != "return" {
+				continue
+			}
 			if len(pa.seen) != 1 {
 				bad = fmt.Sprintf("a path writes %d responses", len(pa.seen))
 				continue
 			}
-			st, _ := errorResponseStatus(pa.seen[0])
-			if deadline && st != 504 || !deadline && st != 502 {
-				bad = fmt.Sprintf("status %d is answered on a path where deadline-exceeded is %v (expected 504 for a timeout, 502 otherwise)", st, deadline)
+			cl := pa.seen[0].(*ssa.Call)
+			for _, alt := range valueAlternatives(cl.Call.Args[1], fsH, cl.Block()) {
+				facts := alt.facts
+				if _, isPhi := cl.Call.Args[1].(*ssa.Phi); !isPhi {
+					facts = append(append([]Fact(nil), facts...), pa.facts...)
+				}
+				st, ok := constInt(alt.v)
+				switch {
+				case !ok:
+					bad = "the status is not a constant"
+				case isDeadline(facts, true) && st != 504:
+					bad = fmt.Sprintf("status %d is answered when the error is a deadline (expected 504)", st)
+				case isDeadline(facts, false) && st != 502:
+					bad = fmt.Sprintf("status %d is answered when the error is not a deadline (expected 502)", st)
+				case !isDeadline(facts, true) && !isDeadline(facts, false):
+					bad = fmt.Sprintf("status %d is chosen without testing errors.Is(err, context.DeadlineExceeded)", st)
+				default:
+					nAlt++
+				}
 			}
 		}
-		c.check(bad == "" && len(paths) >= 2, "C08.R3", fnName(fn)+"/status-table", fn.Pos(), "504 exactly for context.DeadlineExceeded, 502 otherwise, one response per path", bad)
+		if nAlt < 2 && bad == "" {
+			bad = "the handler does not distinguish a deadline (504) from other failures (502)"
+		}
+		c.check(bad == "", "C08.R3", fnName(fn)+"/status-table", fn.Pos(), "504 exactly for context.DeadlineExceeded, 502 otherwise, one response per path", bad)
 	}
 	// no upstream -> 502 and return before proxying
 	for _, name := range []string{"HTTPProxy.ServeHTTP", "TCPProxy.ServeHTTP"} {
